@@ -49,12 +49,14 @@ class C11:
                  "multiset + independent multi-PG reference unpacker over every emitted frame + deadline monitor")
     RULE = ("Hypothesis draws 1..12 send_pgn calls (1..60 bytes incl. the packing boundaries 26/27/28/56/57/60, PDU1 to two "
             "receivers or global, PDU2, time_limit 0 or 1..200 ms, FEFF or broadcast FBFF, from application or timer-callback "
-            "context, submit offsets 0..4 s so that calls fall before/after/inside the background thread's sleep) and wake-up "
+            "context, submit offsets 0..4 s so that calls fall before/after/inside the background thread's sleep) frame writes of "
+            "the job thread taking 0 / 0.5 / 2 ms (calls arrive while a frame is being written), and wake-up "
             "lateness/dispatch 0..100 us; non-trivial = at least two groups were packed into one frame or a non-zero time limit "
             "was used; distinct = distinct parameter sets")
     ASSUMPTIONS = [
         "FBFF frames are judged by the reference decoder only (the stack does not receive base-format frames)",
-        "timeliness bound: submission + time_limit + wake-up lateness + dispatch latency (+ 2 us)",
+        "timeliness bound: submission + time_limit + wake-up lateness + dispatch latency (+ 2 us) + one frame write time per call "
+        "of the case (a due frame may wait for frames the job thread is still writing)",
         "padding content is not judged beyond 'the reference unpacker skips it'",
     ]
     shrink_lists = ("calls",)
